@@ -168,6 +168,10 @@ func genSplit(r *rng, tier string) interface{} {
 		in.Text = pick(r, []string{"", "cmd | ", "cmd ; ", "a b "}) + pick(r, []string{">", "> ", "pos1>", "pos1 > ", "2> ", "pos1 2>", ">>", "< "}) + pick(r, []string{"", "out.", "fi", "s", "zz"})
 	}
 	pool := []string{"val", "value", "two words", "dir/", "é x", "v", "tw", "a b c", "file.txt", "x-y", "50€", "v€", "va¬", "5 0€"}
+	if r.chance(20) {
+		// blanks in unusual places: runs of blanks, a leading or a trailing blank
+		pool = append(pool, "two  words", "va  lue", " val", "val ", " v ", "a   b")
+	}
 	k := 1 + r.intn(4)
 	for i := 0; i < k; i++ {
 		in.Values = append(in.Values, pick(r, pool))
